@@ -106,7 +106,7 @@ CHECKS = {
     "C17": dict(
         level="model_checking",
         technique="TLA+ spec Containers (symbolic algebra of PKCS#7 enveloped-data, signed-data and PKCS#12 objects; state machine make -> one adversary change -> use; the clauses of the statement are invariants checked by TLC over every producer choice, adversary change and use); every done state replayed on the real x509 / pkcs12 packages; single-byte corruption sweep with the statement's 'exactly when' as oracle",
-        text="TLC explores 7.9k (thorough 36k) states: envelopes {SM2 in both ciphertext orderings, RSA} x {DES-CBC, AES-128-GCM} x recipient lists over three holders whose certificates share issuers and serial numbers pairwise x content lengths x {untouched, body changed, wrapped key changed, recipient dropped, reordered} x every (certificate holder, key holder, API, ordering) over four holders; signed data {SM2 with both SM3 identifiers, RSA incl. the package's own AddSigner output} x signed attributes x detached x signer x {content, digest attribute, other attribute, signature, re-signed by another key, certificate swapped} x supplied content; PKCS#12 {empty, ASCII, UTF-8, long, BMP-edge, invalid UTF-8 password} x {SM2, RSA key} x 0..2 CA certificates x {untouched, byte changed, MAC stripped} x right + 10 wrong-password variants x {DecodeAll, Decode, ToPEM, StdVerify = a reader of the integrity protection written from RFC 7292 alone (BMPString, key derivation, HMAC-SHA-1)}. Each case runs on the real packages and must give exactly the content / verified / key and certificates, or an error. Every (quick: every 5th) byte of 8 signed-data objects, 2 GCM envelopes and 4 bundles (with and without macData) is set to 4 values: what still verifies must carry the genuine content, attributes, signature and signer key; what still decrypts or decodes must be the original.",
+        text="TLC explores 7.9k (thorough 36k) states: envelopes {SM2 in both ciphertext orderings, RSA} x {DES-CBC, AES-128-GCM} x recipient lists over three holders whose certificates share issuers and serial numbers pairwise x content lengths x {untouched, body changed, wrapped key changed, recipient dropped, reordered} x every (certificate holder, key holder, API, ordering) over four holders; signed data {SM2 with both SM3 identifiers, RSA incl. the package's own AddSigner output} x signed attributes x detached x signer x {content, digest attribute, other attribute, signature, re-signed by another key, certificate swapped} x supplied content; PKCS#12 {empty, ASCII, UTF-8, long, BMP-edge, invalid UTF-8 password} x {SM2, RSA key} x 0..2 CA certificates x {untouched, byte changed, MAC stripped} x right + 10 wrong-password variants x {DecodeAll, Decode, ToPEM, StdVerify = a reader of the integrity protection written from RFC 7292 alone (BMPString, key derivation, HMAC-SHA-1)}; Decode (one certificate) must refuse bundles that hold more. Signed data with two signers (order kept on the wire; a second signature made over the first signer's attributes must fail); a DES envelope opened 2000 times with another holder's key. Each case runs on the real packages and must give exactly the content / verified / key and certificates, or an error. Every (quick: every 5th) byte of 8 signed-data objects, 2 GCM envelopes and 4 bundles (with and without macData) is set to 4 values: what still verifies must carry the genuine content, attributes, signature and signer key; what still decrypts or decodes must be the original.",
         note="Symbolic cryptography in the model. SM2 signers and attribute-less objects are built by the harness's mirror of the ASN.1 structures because the package cannot produce them. DES-CBC content changed in transit is left unspecified (no integrity in the format). Verify does not validate certificate chains, so 'certified key' means the key of the embedded certificate named by issuer and serial.",
         ref="DESIGN.md section 5 C17"),
     "C18": dict(
@@ -124,7 +124,7 @@ CHECKS = {
     "C20": dict(
         level="model_checking",
         technique="TLA+ specs ConcSm4 (block function as four steps on scratch storage; TLC refutes 'as if alone' for object-owned scratch, proves it for call-owned scratch and enumerates every interleaving, each replayed deterministically through verif gates on one real cipher object), ConcConn / ConcConnMC (Write / Read / Close / CloseWrite of one connection as atomic operations on two byte streams, consequences model-checked) and ConcConnTrace (histories of real connections, invocation and response stamped by one counter, validated by TLC searching the linearisation points), ConcConfig / ConcConfigMC / ConcConfigTrace (the ticket-key list of one shared server Config: atomic rotation, a handshake's Open and Seal instants; histories of real GMSSL and TLS servers under continuous re-installation of the keys validated the same way); stress drivers for every shared object of the statement whose results are compared with the sequential ones, all run under the Go race detector as the sensor of the no-data-race clause",
-        text="All 70 (thorough: 34 650) interleavings of 2 (3) concurrent Encrypt/Decrypt calls x 4 steps on one sm4 cipher are executed through the gates and each call must return its sequential block. Drivers with 2..32 goroutines: package-level sign / verify / encrypt / decrypt / SM3 / SM4-ECB / certificate parse / chain verification on separate data; one cipher.Block shared raw and under CBC; one hash constructor under HMAC; one root + intermediate CertPool; PKCS#7 parse and envelope; first use of the curve in a fresh process; SetIV with the CBC helper (result must be the CBC encryption under one of the installed IVs); GMSSL and TLS 1.2 handshakes on one server Config with session tickets, key rotation every 3 ms and a shared client session cache. Connection histories: GMSSL (CBC) and TLS 1.2 (GCM) connections over loopback TCP with 1..4 writers and 1..2 readers on one end, 1..3 writers on the other, self-describing messages of 64 B..40 kB, Close after or during the traffic, or a half close (CloseWrite) in the middle while the peer keeps writing, or a forged record reaching one end's reader while its Writes are blocked in the transport (the alert it answers with must be one atomic operation of the sending half); every history must be explained by atomic operations (contiguous payloads, per-writer order, no successful Write after Close, errors only once an end has closed). Config histories: 2..7 clients reconnect with their latest ticket during 3..19 key rotations; resumption, re-issue and the key of every new ticket must be explained by an atomic order of rotations and of each handshake's two instants. Any race report whose top frames are in the library is a violation.",
+        text="All 70 (thorough: 34 650) interleavings of 2 (3) concurrent Encrypt/Decrypt calls x 4 steps on one sm4 cipher are executed through the gates and each call must return its sequential block. Drivers with 2..32 goroutines: package-level sign / verify / encrypt / decrypt / SM3 / SM4-ECB / certificate parse / chain verification on separate data; one cipher.Block shared raw and under CBC; one hash constructor under HMAC; one root + intermediate CertPool; PKCS#7 parse and envelope; first use of the curve in a fresh process; SetIV with the CBC helper (result must be the CBC encryption under one of the installed IVs); GMSSL and TLS 1.2 handshakes on one server Config with session tickets, key rotation every 3 ms and a shared client session cache. Connection histories: GMSSL (CBC) and TLS 1.2 (GCM) connections over loopback TCP with 1..4 writers and 1..2 readers on one end, 1..3 writers on the other, self-describing messages of 64 B..40 kB, Close after or during the traffic, or a half close (CloseWrite) in the middle while the peer keeps writing, or (Config histories) rotations that happen inside a handshake at the draw of a ticket IV from Config.Rand, or a forged record reaching one end's reader while its Writes are blocked in the transport (the alert it answers with must be one atomic operation of the sending half); every history must be explained by atomic operations (contiguous payloads, per-writer order, no successful Write after Close, errors only once an end has closed). Config histories: 2..7 clients reconnect with their latest ticket during 3..19 key rotations; resumption, re-issue and the key of every new ticket must be explained by an atomic order of rotations and of each handshake's two instants. Any race report whose top frames are in the library is a violation.",
         note="Exhaustive interleaving only for the sm4 object (gated); the connection and Config are explored by stress under the race detector plus history validation, which sees what the scheduler happens to produce. A failed Write is modelled as non-atomic (its records may be read before the close that fails it). Read after the endpoint's own Close may still return bytes that had arrived. Races in the harness itself abort the check as an infrastructure error.",
         ref="DESIGN.md section 5 C20"),
 }
